@@ -158,13 +158,34 @@ func isInTestOnlyContext(
 	return ctx.testOnlyFuncs.Match(*ctx.currentPkgPath, funcName, funcName)
 }
 
+// calleeOf strips parentheses and explicit type arguments from the function part of a call:
+// (f)(), G[int](x) and (pkg.G[int, string])(x) call f and G just like f() and G(x) do.
+// fns[i]() indexes a value and is left alone.
+func calleeOf(ctx *testOnlyContext, fun ast.Expr) ast.Expr {
+	for {
+		switch e := fun.(type) {
+		case *ast.ParenExpr:
+			fun = e.X
+		case *ast.IndexExpr:
+			if tv, ok := ctx.pass.TypesInfo.Types[e.Index]; !ok || !tv.IsType() {
+				return fun
+			}
+			fun = e.X
+		case *ast.IndexListExpr:
+			fun = e.X
+		default:
+			return fun
+		}
+	}
+}
+
 // findFunctionCallViolation checks if a function call uses @testonly function or method
 // Returns violation or nil
 func findFunctionCallViolation(
 	ctx *testOnlyContext,
 	call *ast.CallExpr,
 ) *TestOnlyViolation {
-	switch fun := call.Fun.(type) {
+	switch fun := calleeOf(ctx, call.Fun).(type) {
 	case *ast.Ident:
 		// Direct function call: CreateMockData()
 		funcName := fun.Name
